@@ -924,6 +924,7 @@ fn exec_entry<const N: usize>(cage: &mut Cage<Map<Key, Val, N>>, op: &Value, ctx
                 (occ, vo(r))
             });
             match r {
+                None if matches!(m, "or_insert_with" | "or_insert_with_key") && !ctx.injected => json!(["panic", calls.get()]),
                 None => json!(["panic"]),
                 Some((occ, o)) => {
                     ctx.vo_inside("entry value reference", &o);
